@@ -1731,7 +1731,7 @@ gd_entry_t *_GD_ParseFieldSpec(DIRFILE *restrict D,
       case 'S':
         if (strcmp(in_cols[1], "SBIT") == 0 && GD_PVERS_GE(*p, 7))
           E = _GD_ParseBit(D, 1, p, in_cols, n_cols, P, me);
-        else if (strcmp(in_cols[1], "SINDIR") == 0 && GD_PVERS_GE(*p, 2))
+        else if (strcmp(in_cols[1], "SINDIR") == 0 && GD_PVERS_GE(*p, 10))
           E = _GD_ParseYoke(D, GD_SINDIR_ENTRY, p, in_cols, n_cols, P, me);
         else if (strcmp(in_cols[1], "SARRAY") == 0 && GD_PVERS_GE(*p, 10))
           E = _GD_ParseArray(D, 1, p, in_cols, n_cols, P, me, outstring,
